@@ -240,7 +240,7 @@ class MethodRegistry:
         for method in methods:
             if isinstance(method, Method):
                 if self._prefix:
-                    method = method.copy(name=f'{self._prefix}.{method.name}')
+                    method = method.copy(name='.'.join((self._prefix, method.name)))
                 self._add_method(method)
             else:
                 self.add(method)
@@ -285,7 +285,7 @@ class MethodRegistry:
 
         for name, method in other.items():
             if self._prefix:
-                name = f'{self._prefix}.{name}'
+                name = '.'.join((self._prefix, name))
 
             self._add_method(method.copy(name=name))
 
